@@ -554,6 +554,16 @@ _ADD16 = {
     "C17": " A flood action puts 300..4200 distinct keys under slow construction at once and then asks for a new key.",
     "C19": " A two-trees kind builds two handlers separately on one atomic writer and lets a record of the second be written whenever the writer has received a payload that does not end a line.",
 }
+_ADD17 = {
+    "C13": " Width-compensated matches (window and needle of equal byte length whose first and last runes have different widths) between ASCII-only paddings of 0..40 bytes.",
+    "C14": " URL hosts include all-digit ports above 65535, zero and zero-padded ports.",
+    "C15": " An optional-interfaces kind drives whatever other reading interfaces the limited reader offers (io.ByteReader, io.WriterTo) against the same prefix-within-the-limit oracle (the unchanged reader offers none).",
+    "C19": " Messages of 65537..131073 bytes.",
+    "C20": " An early-hints middleware (103) between two distinct log middlewares, the inner one's records tagged.",
+}
+for _pid, _lt in _ADD17.items():
+    PROPS[_pid]["level_text"] += _lt
+
 for _pid, _lt in _ADD16.items():
     PROPS[_pid]["level_text"] += _lt
 
